@@ -348,6 +348,13 @@ impl<'e> EventLoop<'e> {
     }
 
     unsafe fn resume(&self, token: u64) {
+        #[cfg(feature = "verif")]
+        crate::verif::emit(
+            "resume",
+            token,
+            u64::from(COROUTINE_TOKENS.contains(&token)),
+            "",
+        );
         if COROUTINE_TOKENS.remove(&token).is_none() {
             return;
         }
@@ -501,6 +508,8 @@ macro_rules! impl_io_uring {
             ) -> std::io::Result<Arc<(Mutex<Option<c_longlong>>, Condvar)>> {
                 let token = EventLoop::token(SyscallName::$syscall);
                 self.operator.$syscall(token, $($arg, )*)?;
+                #[cfg(feature = "verif")]
+                crate::verif::pause("uring:after_submit", token);
                 let arc = Arc::new((Mutex::new(None), Condvar::new()));
                 assert!(
                     self.syscall_wait_table.insert(token, arc.clone()).is_none(),
